@@ -127,3 +127,24 @@ def build_index(kind, labels, name=None, go=False):
 
 def kind_is_hier(kind):
     return kind.startswith('hier')
+
+
+def product_growth(depth, rng, n_steps=6):
+    """pools for IndexHierarchy.from_product (depth levels) and a list of tuples that can be appended afterwards in tree
+    order: new leaves under the last branch, new middle branches under the last outer label, new outer labels."""
+    base = [['a', 'b', 'c'], [1, 2, 3], ['x', 'y', 'z'], [10, 20]]
+    pools = [base[d][:rng.randint(1, 3) if d < 3 else 2] for d in range(depth)]
+    import itertools
+    model = list(itertools.product(*pools))
+    appended = []
+    counter = 0
+    cur = list(model)
+    for _ in range(n_steps):
+        last = cur[-1]
+        d = rng.randrange(depth)  # the depth at which the new tuple departs from the last one
+        counter += 1
+        fresh = [f'n{counter}' if isinstance(last[k], str) else 1000 + counter for k in range(depth)]
+        new = tuple(last[:d]) + (fresh[d],) + tuple(pools[k][0] for k in range(d + 1, depth))
+        appended.append(new)
+        cur.append(new)
+    return pools, model, appended
